@@ -8,7 +8,7 @@ template <typename T>
 ERROR awkward_Index_nones_as_index(
   T* toindex,
   int64_t length) {
-  int64_t last_index = 0;
+  int64_t last_index = -1;
   for (int64_t i = 0; i < length; i++) {
     toindex[i] > last_index ? last_index = toindex[i] : last_index;
   }
